@@ -4,6 +4,8 @@ import TinysetModel.Proofs.Consts
 import TinysetModel.Proofs.InlineSpec
 import TinysetModel.Proofs.Demo
 import TinysetModel.Proofs.TinySrc
+import TinysetModel.Proofs.TinyNextSrc
+import TinysetModel.Proofs.TinyInsertSrc
 /-! C10 — small sets of small numbers live in one machine word with no heap memory.
 
 First part: the inline codec alone (`TinyC`, `Model/Tiny.lean`).  Second part: the same at the level of whole
@@ -168,6 +170,31 @@ theorem inline_singleton_is_the_source (x : Nat) :
     (x < 2 ^ 64 → Gen.tiny_from_singleton_64 x = (newSortedDeduped codec64 [x]).map (fun t => (t.sz, t.bits))) ∧
     (x < 2 ^ 32 → Gen.tiny_from_singleton_32 x = (newSortedDeduped codec32 [x]).map (fun t => (t.sz, t.bits))) :=
   ⟨SC.tiny_from_singleton_64_eq x, SC.tiny_from_singleton_32_eq x⟩
+/-- **`Tiny::insert` of the current source is the model's inline `insert`** — the function that decides, on every
+`insert` into an inline set, whether the set stays one word: the re-packing with two explicit iterators over the old and
+the new row of widths, three loops, `unwrap`s, and the `any` over the word when it is full, translated on every run. On
+the word of any well-formed inline set and for every element of the element type it never panics and returns exactly
+what `TinyC.insert` returns ("already there" / "does not fit" / the re-packed word) — so `ascending_is_inline` and the
+budget theorems speak about the source's own packing code -/
+theorem inline_insert_is_the_source_u64 (t : T) (wf : SC.WF SC.cfg64 (.stack t)) (e : Nat) (he : e < 2 ^ 64) :
+    Gen.tiny_insert_64 t.sz t.bits e = .ok ((TinyC.insert codec64 t e).map (fun t => (t.sz, t.bits))) :=
+  SC.tiny_insert_64_eq t wf e he
+theorem inline_insert_is_the_source_u32 (t : T) (wf : SC.WF SC.cfg32 (.stack t)) (e : Nat) (he : e < 2 ^ 32) :
+    Gen.tiny_insert_32 t.sz t.bits e = .ok ((TinyC.insert codec32 t e).map (fun t => (t.sz, t.bits))) :=
+  SC.tiny_insert_32_eq t wf e he
+/-- not vacuous: 5 goes between 3 and 10 (gaps 1 and 4 in the row [31, 15, 15]); 2^40 does not fit next to 3 -/
+example : Gen.tiny_insert_64 2 (3 + 2 ^ 40 * 6) 5 = .ok (some (3, 3 + 2 ^ 31 * (1 + 2 ^ 15 * 4))) ∧
+    Gen.tiny_insert_64 1 3 (2 ^ 40) = .ok none := by decide
+
+/-- `<Tiny as Iterator>::next` of the current source — what `for x in t` runs when an inline set is converted to a
+table, and what the inline `remove`, `max` and the operators iterate — translated on every run: calling it on the word
+of any well-formed inline set until it answers `None` yields exactly the members of the word, in order -/
+theorem inline_iteration_is_the_source_u64 (t : T) (wf : SC.WF SC.cfg64 (.stack t)) :
+    Gen.tiny_drain_64 t.sz (t.sz + 1) 0 t.bits 0 = t.members codec64 := SC.tinyDrain64_eq_members t wf
+theorem inline_iteration_is_the_source_u32 (t : T) (wf : SC.WF SC.cfg32 (.stack t)) :
+    Gen.tiny_drain_32 t.sz (t.sz + 1) 0 t.bits 0 = t.members codec32 := SC.tinyDrain32_eq_members t wf
+/-- not vacuous -/
+example : Gen.tiny_drain_64 2 3 0 (3 + 2 ^ 40 * 6) 0 = [3, 10] := by decide
 /-- not vacuous: {3, 10} is packed as 3 + 2^40 * 6; a first value of 2^61 is refused -/
 example : Gen.tiny_new_64 [3, 10] = some (2, 3 + 2 ^ 40 * 6) ∧ Gen.tiny_new_64 [2 ^ 61] = none := by decide
 
